@@ -83,6 +83,16 @@ DESC = {
  "r6C15": ("`From<f64> for Number` snaps doubles within 2-4 ulps of an integer to that Integer", "a rounded operation whose double result is next to an integer (`log(1000,10)`, `root(3,125)`)"),
  "r6C17": ("lib.rs re-exports eval_f64 whenever eval_number or eval_complex is selected", "a feature subset with eval_number or eval_complex and without eval_f64"),
  "r6C18": ("eval_number floor/ceil/round/trunc convert an Integer operand to f64 and back", "Integer above 2^53 through a rounding function (`ceil(@)` with @ = 2^53+1)"),
+ "r7C01": ("eval_i64 lcm drops its zero pre-pass: a second zero argument divides by gcd(0,0) = 0", "`lcm(0,0)` (two zero arguments; one zero is fine)"),
+ "r7C02": ("eval_i64 gcd rewritten as a binary gcd that only removes the common power of two: degrades to repeated subtraction", "`gcd(9223372036854775807,2)`: a large odd argument next to a small even one"),
+ "r7C03": ("whitespace stripping in the five wrappers became `retain(|c| c > ' ')`: control characters are deleted, non-ASCII whitespace is kept", "`1\\u{0}2`, `1\\u{1}+2` (accepted) or `1\\u{a0}+2` (now rejected)"),
+ "r7C04": ("eval_decimal unwinds prefix signs and `!` chains in one loop, factorials first: a bracketed sign under a factorial is pulled outside", "`(-3)!`, `(-0.5)!`"),
+ "r7C12": ("`Token::ExplicitFunction` arm added to convert_token_to_node in all parsers: a function name after a constant, `@`, superscript, ° or rad starts an implicit product", "`@abs(2)`, `pi cos(0)`, `2²sqrt(4)`"),
+ "r7C13": ("runs of prefix signs folded by parity in parse_number: `--x` parses as `x` while `-(-x)` builds two negations", "`--@` at i64::MIN in eval_i64 / eval_number"),
+ "r7C14": ("eval_decimal routes `@` through the literal helper: the placeholder gains left-side implicit multiplication", "`@(2)`, `@2`, `@sqrt(4)` in eval_decimal"),
+ "r7C16": ("eval_decimal hands expressions of >= 256 bytes to a process-wide big-stack worker; send and receive are not one atomic step", "two threads inside long eval_decimal calls at once"),
+ "r7C19": ("eval_i64 folds literal digits with the overflow guard `value >= i64::MAX / 10`", "the literals 9223372036854775800 ... 9223372036854775807"),
+ "r7C20": ("eval_number product chain keeps an exact i128 product of Integer factors behind the rounded double", "`(3037000555*3037000665)*3` against `@*3`"),
 }
 rows = []
 for d in sorted(glob.glob(os.path.join(V, "seeded", "*"))):
